@@ -3,7 +3,8 @@
      T0   model of MIR_output of the described context
      W1   model of the raw (uncompressed) bytes of MIR_write_with_func
      RB   ok / ERR:why   model of MIR_read_with_func on W1;  T1 = model text of what was read
-     SC   ok / ERR:why   model of MIR_scan_string on T0;  T2 = model text of what was scanned; SC2/T3 once more
+     SC   ok / ERR:why   model of MIR_scan_string on T0;  TAST = tnorm/differs: the scanned AST is / is not map tnorm_module of the input
+      T2 = model text of what was scanned; SC2/T3 once more
    With argument "table" prints the model's insn table in the format of `c11_io table`. *)
 module M = C11x
 
@@ -165,6 +166,7 @@ let run_case line =
    | M.Err why -> Buffer.add_string b ("|SC=ERR:" ^ ocaml_string why)
    | M.Ok ms2 ->
      Buffer.add_string b "|SC=ok";
+     Buffer.add_string b (if ms2 = List.map M.tnorm_module ms then "|TAST=tnorm" else "|TAST=differs");
      let t2 = text ms2 in
      if t2 = t0 then Buffer.add_string b "|T2==" else Buffer.add_string b ("|T2=" ^ hex_of_bytes t2);
      (match M.scan_ctx M.parseF M.parseD M.parseLD t2 with
